@@ -16,10 +16,28 @@ Streams
            case, to a section of a service); read with read_namespace, with read_files (all files) or with read_files (one
            target, the rest reached as dependencies)
 
+  diag     DIAGNOSTIC PATHS: namespaces with exactly one defect (or one defective pair of files), one family per rule the library
+           can report - undefined type / version / namespace, undefined identifier, unknown directive, misused directive, extent
+           against the size of the type, minor versions that disagree (extent, sealing, kind, port-ID) or are defined twice,
+           constants out of range / of the wrong kind, array capacities, bit lengths and cast modes, reserved / too long /
+           colliding / non-ASCII names, unions and aggregation rules, fixed port-IDs at and beyond their limits, version numbers
+           and malformed file names, root and lookup directories against each other, undefined attributes and operators, failing
+           assertions - each reached with EXTREME parameters (2**64, around the largest double 2**1024 and 8x / 64x that, 10**400,
+           10**4000, beyond CPython's 4300-digit int -> str limit, names and literals of 10**4 characters) and TIED candidates
+           (no / one / two equally close / a ring of / many other versions of the requested type, equally similar names, letter-case
+           variants, the same candidates visible through a second directory), because the text of a diagnostic is computed from
+           the offending values.  The defect sits in a plain definition, in either section of a service, in a union, in a nested
+           namespace, in a dependency, in a dependency of a dependency or in a lookup namespace; all three entry points.
+           The oracle additionally demands that the InvalidDefinitionError names the offending file ("offending": the files that
+           hold the defect by construction; absent where the input may be legitimate).
+
 Case:    {"kind", "files": [[relative path, text], ...], optional "tree"/"ctx"/"env"/"text" (arith), "names": [basenames],
-          optional "how": "ns" | "files" | "files1" (entry point, default "ns"), "target": relative path (files1)}
-Outcome: {"cls": "ok" | "invalid" | "internal" | "foreign:<cls>", soft_*}
-Oracle:  the exception class itself: anything but ok / InvalidDefinitionError-with-path is a violation.
+          optional "how": "ns" | "files" | "files1" (entry point, default "ns"), "target": relative path (files1),
+          optional (diag) "root": root namespace directory (default "ns"), "lookups": [directories], "opts": see run_files,
+          "offending": [relative paths], "diag" / "mag" / "place" / "cand" / "shape": labels for features}
+Outcome: {"cls": "ok" | "invalid" | "internal" | "foreign:<cls>", "path": relative path named by the error, soft_*}
+Oracle:  the exception class itself: anything but ok / InvalidDefinitionError-with-path is a violation; where the case states the
+         offending files, the path must be one of them.
 """
 from __future__ import annotations
 
@@ -71,11 +89,14 @@ _POW_OK = re.compile(r"\*\*[ \t]*-?[ \t]*(\d{1,2}|\.\d{1,3}|\d\.\d{1,3})(?![\w.]
 
 def risky(text: str) -> bool:
     """Texts on which evaluation may not terminate in practice (outside the bounded quantifier of the property):
-    a power whose exponent is not a short literal, or the numerical expansion `_offset_` next to large numbers."""
+    a power whose exponent is not a short literal, the numerical expansion `_offset_` next to large numbers, or a real literal
+    with an astronomic exponent."""
     n_pow = text.count("**")
     if n_pow and len(_POW_OK.findall(text)) != n_pow:
         return True
     if "_offset_" in text and (n_pow or re.search(r"\d{4}|\de\d|0[xX][0-9a-fA-F]{4}|0[bB][01]{10}", text)):
+        return True
+    if re.search(r"[\d.][eE][+-]?\d[\d_]{4,}", text):   # a real literal with an exponent of five or more digits (3.1e400141_592): 10 ** exponent is computed
         return True
     return False
 
@@ -447,11 +468,702 @@ def gen_unreadable(rng: random.Random) -> dict:
     return {"kind": "unreadable", "files": files}
 
 
+# ---- diagnostic paths: every rule the library can report, reached with EXTREME and TIED parameters.  The text of an error is
+# computed from the offending values (sizes, versions, names, candidate lists), so producing the diagnostic is itself code that can
+# fail: numbers beyond the double range, beyond CPython's int -> str limit, candidates at equal distance, no candidate at all.
+
+SEALED = "@sealed\n"
+DIAG_ENTRIES = ["ns", "ns", "files", "files1"]
+
+
+def _num(rng: random.Random, xl: bool = False):
+    """(magnitude class, DSDL spelling, value) of a positive integer.  No value beyond 4000 digits is ever turned into text here
+    (the harness runs under CPython's conversion limit as well): such numbers are spelled as powers."""
+    k = rng.choice(["small", "small", "u64", "u64", "double-edge", "double-edge", "double-edge", "astronomic", "astronomic"] + (["xl"] if xl else []))
+    if k == "small":
+        v = rng.choice([1, 2, 3, 7, 8, 9, 16, 255, 256, 300, 65536])
+        return k, str(v), v
+    if k == "u64":
+        b, e, d = 2, rng.choice([32, 53, 63, 64, 64, 65, 128]), rng.choice([-1, 0, 0, 1])
+    elif k == "double-edge":   # around the largest double (and 8 x / 64 x that: sizes are converted between bits, bytes and elements)
+        b, e, d = 2, rng.choice([1018, 1021, 1023, 1024, 1024, 1027, 1030, 1031]), rng.choice([-1, 0, 0, 1])
+    elif k == "astronomic":
+        b, e = rng.choice([(2, 2000), (10, 309), (10, 400), (10, 400), (10, 1000), (10, 4000), (16, 300)])
+        d = rng.choice([-1, 0, 0, 1])
+    else:                      # beyond CPython's int -> str limit: whatever quotes the value runs into the known finding F12b
+        b, e, d = 10, rng.choice([4300, 5000]), 0
+    v = b ** e + d
+    text = "%d ** %d" % (b, e) + ("" if d == 0 else " + 1" if d > 0 else " - 1")
+    if k != "xl" and e <= 1100 and rng.random() < 0.3:
+        text = rng.choice([str(v), hex(v)]) if v.bit_length() < 8000 else str(v)
+    return k, text, v
+
+
+def _big_type(rng: random.Random, n_text: str, n: int):
+    """A type whose size is governed by the number n: (statements, further files, smallest valid extent in bits, shape)."""
+    shape = rng.choice(["bytes", "bytes", "bits", "words", "union", "nested", "nested-array", "variable"])
+    if shape == "variable" and n >= 2 ** 64:
+        shape = "bytes"
+    if shape == "bytes":
+        return ["uint8[%s] a" % n_text], [], 8 * n, shape
+    if shape == "bits":
+        return ["bool[(%s) * 8] a" % n_text], [], 8 * n, shape
+    if shape == "words":
+        return ["uint64[%s] a" % n_text, "uint8 b"], [], 64 * n + 8, shape
+    if shape == "union":
+        return ["@union", "uint8[%s] a" % n_text, "uint16 b"], [], 8 + max(8 * n, 16), shape
+    if shape == "nested":
+        return ["ns.Big.1.0 big"], [["ns/Big.1.0.dsdl", "uint8[%s] a\n@sealed\n" % n_text]], 8 * n, shape
+    if shape == "nested-array":
+        return ["ns.Big.1.0[3] big"], [["ns/Big.1.0.dsdl", "uint8[%s] a\n@sealed\n" % n_text]], 24 * n, shape
+    prefix = 8 if n < 2 ** 8 else 16 if n < 2 ** 16 else 32 if n < 2 ** 32 else 64
+    return ["uint8[<=%s] a" % n_text], [], prefix + 8 * n, shape
+
+
+def _extent_text(rng: random.Random, bits: int) -> str:
+    """Spelling of an extent given in bits (a multiple of 8 is written the customary way now and then)."""
+    assert abs(bits).bit_length() < 14000       # never turn a number beyond CPython's conversion limit into digits
+    if bits % 8 == 0 and rng.random() < 0.5:
+        return "%d * 8" % (bits // 8)
+    return str(bits)
+
+
+def _place(rng: random.Random, body: str, extra=(), simple: bool = True, allow=None) -> dict:
+    """Put the definition text `body` - the one that holds the defect - somewhere into a namespace; the rest of the namespace is
+    valid.  simple: one section, not deprecated (so it can become a section of a service or a dependency)."""
+    options = ["plain", "plain", "plain", "deep"] + (["request", "response", "dependency", "dependency", "chain", "lookup"] if simple else [])
+    if allow is not None:
+        options = [o for o in options if o in allow]
+    p = rng.choice(options)
+    files = [list(f) for f in extra]
+    lookups = []
+    x = rng.random()
+    if x < 0.12 and p != "request" and body.endswith("\n"):
+        body = body[:-1]                         # the last statement ends with the file
+    elif x < 0.2:
+        body = body.replace("\n", "\r\n")        # the other admitted line ending
+    if p == "plain":
+        off = "ns/A.1.0.dsdl"
+        files.append([off, body])
+    elif p == "deep":
+        off = "ns/sub/deeper/A.1.0.dsdl"
+        files.append([off, body])
+    elif p == "request":
+        off = "ns/A.1.0.dsdl"
+        files.append([off, body + "---\nuint8 r\n@sealed\n"])
+    elif p == "response":
+        off = "ns/A.1.0.dsdl"
+        files.append([off, "uint8 q\n@sealed\n---\n" + body])
+    elif p == "dependency":
+        off = "ns/Zq.1.0.dsdl"
+        files += [["ns/A.1.0.dsdl", "ns.Zq.1.0%s z\n@sealed\n" % rng.choice(["", "", "[<=2]", "[2]"])], [off, body]]
+    elif p == "chain":
+        off = "ns/sub/Zq.1.0.dsdl"
+        files += [["ns/A.1.0.dsdl", "ns.Mid.1.0 m\n@sealed\n"], ["ns/Mid.1.0.dsdl", "ns.sub.Zq.1.0 z\n@sealed\n"], [off, body]]
+    else:
+        off = "lib/Zq.1.0.dsdl"
+        lookups = ["lib"]
+        files += [["ns/A.1.0.dsdl", "lib.Zq.1.0 z\n@sealed\n"], [off, body]]
+    return {"files": files, "lookups": lookups, "offending": [off], "place": p}
+
+
+def _versions_around(rng: random.Random, M: int, m: int):
+    """(configuration name, versions defined) around a requested version (M, m) that is NOT defined."""
+    k = rng.choice(["none", "one", "tie-minor", "tie-minor", "tie-major", "tie-major", "tie-diagonal", "ring", "tie-not-closest", "untied", "many"])
+    d = rng.choice([1, 1, 1, 2, 5])
+    vs = []
+    if k == "one":
+        vs = [rng.choice([(M, m + d), (M + d, m), (M, max(0, m - d)), (max(0, M - d), m)])]
+    elif k == "tie-minor":
+        vs = [(M, m - d), (M, m + d)]
+    elif k == "tie-major":
+        vs = [(M - d, m), (M + d, m)]
+    elif k == "tie-diagonal":
+        vs = rng.choice([[(M - 1, m + 1), (M + 1, m - 1)], [(M - 1, m - 1), (M + 1, m + 1)], [(M - 1, m), (M + 1, m), (M, m + 1), (M, m - 1)]])
+    elif k == "ring":
+        vs = [(M + i, m + j) for i in (-1, 0, 1) for j in (-1, 0, 1) if (i, j) != (0, 0)]
+    elif k == "tie-not-closest":
+        vs = [(M, m + 1), (M + 2, m), (M - 2, m)]
+    elif k == "untied":
+        vs = [(M, m + 1), (M, m + 3), (M + 2, m)]
+    elif k == "many":
+        vs = [(M + i, j) for i in (-1, 0, 1) for j in range(0, 6)]
+    vs = sorted({v for v in vs if v != (M, m) and v != (0, 0) and 0 <= v[0] <= 255 and 0 <= v[1] <= 255})
+    return k, vs
+
+
+NEAR_NAMES = {   # requested name -> names at the same small distance from it
+    "Foo": ["Fop", "Fon", "Fooo", "Fo", "Foo_", "Boo"], "Limit": ["Limit1", "Limit2", "Limits", "Limit_"], "Abcd": ["Abce", "Abcf", "Abc", "Bbcd"],
+}
+
+
+def d_undefined_type(rng: random.Random) -> dict:
+    """A reference to a version / a name / a namespace that is not defined, with 0, 1, 2 equally close or many candidates."""
+    name = rng.choice(list(NEAR_NAMES))
+    M, m = rng.choice([(1, 1), (1, 1), (2, 0), (0, 3), (1, 5), (2, 1), (3, 2), (254, 254), (1, 0), (128, 7)])
+    where = rng.choice(["own", "own", "nested", "lookup"])
+    base = {"own": "ns/", "nested": "ns/lib/", "lookup": "lib/"}[where]
+    full = {"own": "ns.", "nested": "ns.lib.", "lookup": "lib."}[where] + name
+    body_of_candidates = rng.choice([SEALED, "uint8 X = 1\n@sealed\n", "uint8 v\n@extent 64\n"])
+    cand, vs = _versions_around(rng, M, m)
+    files = [[base + "%s.%d.%d.dsdl" % (name, a, b), body_of_candidates] for a, b in vs]
+    similar = rng.choice(["no", "no", "no", "names", "names-only", "letter-case"])
+    if similar != "no":
+        if similar == "names-only":
+            files, cand = [], "similar-names-only"
+        else:
+            cand += "+" + similar
+        others = rng.sample(NEAR_NAMES[name], rng.choice([1, 2, 2, 3])) if similar != "letter-case" else [name.lower(), name.upper()][: rng.choice([1, 2])]
+        files += [[base + "%s.%d.%d.dsdl" % (o, M, m), body_of_candidates] for o in others]
+    second = where != "lookup" and files and rng.random() < 0.12
+    if second:      # every candidate is visible through two directories (a second checkout of the root namespace among the lookup directories)
+        files += [["other/" + f[0], f[1]] for f in files]
+        cand += "+second-directory"
+    wrong_ns = rng.random() < 0.12
+    if wrong_ns:    # the namespace itself is misspelled / is the sub-root taken for a root / does not exist at all
+        full = rng.choice(["nss." + name, "n." + name, "lib." + name if where != "lookup" else "libs." + name, "ns.lib.lib." + name, "ns.sub.deeper." + name])
+        cand += "+other-namespace"
+    ver = "%d.%d" % (M, m)
+    if rng.random() < 0.1:
+        ver = rng.choice(["%d.%d" % (M, 2 ** 64), "%d.%d" % (10 ** 400, m), "%d.%d" % (256, 0), "0.0", "%d.%d" % (M, 10 ** 4000), "%s.0" % ("9" * 4301)])
+        cand += "+extreme-version"
+    form = rng.choice(["field", "field", "array", "array", "constant", "assert"])
+    if form == "field":
+        stmt = "%s.%s f" % (full, ver)
+    elif form == "array":
+        stmt = "%s.%s[%s] f" % (full, ver, rng.choice(["<=4", "3", "<2 ** 64"]))
+    elif form == "constant":
+        stmt = "uint8 X = %s.%s.X" % (full, ver)
+    else:
+        stmt = "@assert %s.%s.X == 1" % (full, ver)
+    body = stmt + "\n" + rng.choice([SEALED, "@extent 8 * 10 ** 4000\n"])
+    case = _place(rng, body, files, allow=["plain", "plain", "deep", "request", "response", "dependency", "chain"] if where != "lookup" else ["plain", "request", "response", "dependency"])
+    if where == "lookup":
+        case["lookups"] = ["lib"]
+    if second:
+        case["lookups"] = case["lookups"] + ["other/ns"]
+    if rng.random() < 0.15 and where == "own" and case["place"] == "plain":    # the referrer is another version of the requested type itself
+        v2 = rng.choice([(M, m + 2), (M, m + 1), (M + 1, 0)])
+        if v2 not in vs and v2[1] <= 255:
+            for f in case["files"]:
+                if f[0] == "ns/A.1.0.dsdl":
+                    f[0] = "ns/%s.%d.%d.dsdl" % (name, v2[0], v2[1])
+                    case["offending"] = [f[0]]
+            cand += "+own-other-version"
+    if "letter-case" in cand:
+        case.pop("offending")     # the library names the definition whose name differs by case: that one is the offender as well
+    case.update({"diag": "undefined-type", "cand": cand})
+    return case
+
+
+def d_undefined_identifier(rng: random.Random) -> dict:
+    name = rng.choice(["LIMIT", "LIMIT", "Max", "x", "_offset", "offset_", "_Offset_", "OFFSET", "X" * rng.choice([300, 5000, 30000]), "q" * 256])
+    cand = rng.choice(["none", "one-near", "two-near", "two-near", "letter-case", "many"])
+    near = {"none": [], "one-near": [name + "1"], "two-near": [name + "1", name + "2"], "letter-case": [name.swapcase()],
+            "many": [name + s for s in "0123456789"] + [name[:-1] or "k"]}[cand]
+    if len(name) > 1000 and cand == "many":
+        cand, near = "two-near", [name + "1", name + "2"]
+    near = [n for n in dict.fromkeys(near) if n != name and re.fullmatch(r"[A-Za-z_][A-Za-z0-9_]*", n)]
+    consts = "".join("uint8 %s = %d\n" % (n, i) for i, n in enumerate(near))
+    use = rng.choice(["@assert %s == 1", "uint8 Y = %s + 1", "uint8[%s] f", "uint8[<=%s * 2] f", "@extent %s * 8", "@print %s", "@assert {%s, 1} == {1}", "@assert 2 ** 64 < %s"]) % name
+    tail = "" if use.startswith("@extent") else SEALED
+    if rng.random() < 0.2 and near:    # the constants are in the other section of a service: a lookup cannot cross the boundary
+        body, simple = consts + "@sealed\n---\n" + use + "\n" + tail, False
+        cand += "+across-sections"
+    else:
+        body, simple = consts + use + "\n" + tail, True
+    case = _place(rng, body, simple=simple)
+    case.update({"diag": "undefined-identifier", "cand": cand, "mag": "long-name" if len(name) > 255 else "small"})
+    return case
+
+
+DIRECTIVES = ["sealed", "extent", "union", "deprecated", "assert", "print"]
+
+
+def d_unknown_directive(rng: random.Random) -> dict:
+    k = rng.choice(["near", "near", "tie", "tie", "letter-case", "long", "other"])
+    if k == "near":
+        d = rng.choice(DIRECTIVES)
+        i = rng.randrange(len(d))
+        name = rng.choice([d[:i] + d[i + 1:], d[:i] + d[i] + d[i:], d[:i] + "x" + d[i + 1:], d + "s", d[:-1]])
+    elif k == "tie":      # equally far from two directives
+        name = rng.choice(["se", "e", "ext", "sealent", "exted", "unint", "print_assert", "a", "s", "deprecatedsealed", "prinsert", "un", "xtent", "ealed"])
+    elif k == "letter-case":
+        name = rng.choice(DIRECTIVES).upper() if rng.random() < 0.5 else rng.choice(DIRECTIVES).capitalize()
+    elif k == "long":
+        name = rng.choice(["x", "sealed", "ab"]) * rng.choice([100, 5000, 15000])
+    else:
+        name = rng.choice(["foo", "_", "sealed_", "_extent", "bitlength", "offset", "x1", "uint8", "true"])
+    if name in DIRECTIVES:
+        name += "x"
+    arg = rng.choice(["", "", " 64", " 10 ** 400", " 'a'", " {1, 2}", " true"])
+    pos = rng.choice(["first", "last", "after-mode"])
+    stmt = "@" + name + arg
+    body = {"first": stmt + "\nuint8 a\n@sealed\n", "last": "uint8 a\n" + stmt + "\n@sealed\n", "after-mode": "uint8 a\n@sealed\n" + stmt + "\n"}[pos]
+    case = _place(rng, body)
+    case.update({"diag": "unknown-directive", "cand": k, "mag": "long-name" if len(name) > 255 else "small"})
+    return case
+
+
+def d_directive_misuse(rng: random.Random) -> dict:
+    mag, n_text, _n = _num(rng, xl=True)
+    simple = True
+    k = rng.choice(["sealed-expr", "union-expr", "deprecated-expr", "union-twice", "deprecated-twice", "deprecated-in-response", "union-late", "deprecated-late",
+                    "extent-bare", "assert-bare", "assert-not-boolean", "extent-not-rational", "extent-after-extent", "sealed-after-extent", "extent-after-sealed",
+                    "sealed-twice", "attribute-after-extent", "marker-twice", "extent-fraction", "print-bare"])
+    if k == "sealed-expr":
+        body = "uint8 a\n@sealed %s\n" % n_text
+    elif k == "union-expr":
+        body = "@union %s\nuint8 a\nuint8 b\n@sealed\n" % n_text
+    elif k == "deprecated-expr":
+        body, simple = "@deprecated %s\nuint8 a\n@sealed\n" % n_text, False
+    elif k == "union-twice":
+        body = "@union\n@union\nuint8 a\nuint8 b\n@sealed\n"
+    elif k == "deprecated-twice":
+        body, simple = "@deprecated\n@deprecated\nuint8 a\n@sealed\n", False
+    elif k == "deprecated-in-response":
+        body, simple = "uint8 a\n@sealed\n---\n@deprecated\nuint8 b\n@sealed\n", False
+    elif k == "union-late":
+        body = "uint8 a\n@union\nuint8 b\n@sealed\n"
+    elif k == "deprecated-late":
+        body, simple = "uint8 a\n@deprecated\n@sealed\n", False
+    elif k == "extent-bare":
+        body = "uint8 a\n@extent\n"
+    elif k == "assert-bare":
+        body = "uint8 a\n@assert\n@sealed\n"
+    elif k == "print-bare":
+        body = "uint8 a\n@print\n@sealed\n"
+    elif k == "assert-not-boolean":
+        body = "uint8 a\n@assert %s\n@sealed\n" % rng.choice([n_text, "{%s}" % n_text, "'a'", "(%s) / 3" % n_text])
+    elif k == "extent-not-rational":
+        body = "uint8 a\n@extent %s\n" % rng.choice(["'a'", "true", "{%s}" % n_text, "{8, 16}"])
+    elif k == "extent-fraction":
+        body = "uint8 a\n@extent (%s) / %s\n" % (n_text, rng.choice(["3", "7", "(%s + 1)" % n_text]))
+    elif k == "extent-after-extent":
+        body = "uint8 a\n@extent (%s) * 8\n@extent (%s) * 8\n" % (n_text, n_text)
+    elif k == "sealed-after-extent":
+        body = "uint8 a\n@extent (%s) * 8\n@sealed\n" % n_text
+    elif k == "extent-after-sealed":
+        body = "uint8 a\n@sealed\n@extent (%s) * 8\n" % n_text
+    elif k == "sealed-twice":
+        body = "uint8 a\n@sealed\n@sealed\n"
+    elif k == "attribute-after-extent":
+        body = "uint8 a\n@extent (%s) * 8\n%s\n" % (n_text, rng.choice(["uint8 b", "uint8 B = 1", "void8"]))
+    else:
+        body, simple = "uint8 a\n@sealed\n---\nuint8 b\n@sealed\n---\nuint8 c\n@sealed\n", False
+    case = _place(rng, body, simple=simple)
+    case.update({"diag": "directive-misuse:" + k, "mag": mag})
+    if k == "print-bare":
+        case.pop("offending")     # legitimate: a control
+    return case
+
+
+def d_extent(rng: random.Random) -> dict:
+    """The extent of a delimited type against the size of the type: too small, not a multiple of eight, negative, exactly enough."""
+    mag, n_text, n = _num(rng, xl=True)
+    stmts, extra, need, shape = _big_type(rng, n_text, n)
+    k = rng.choice(["too-small", "too-small", "too-small", "one-byte-short", "one-byte-short", "unaligned", "unaligned-huge", "negative", "zero", "exact", "missing", "missing"])
+    if mag == "xl" and k in ("one-byte-short", "exact", "unaligned"):
+        k = "too-small"
+    if k == "too-small":
+        ext = _extent_text(rng, rng.choice([8, 64, 1024 * 8] + ([need // 2 // 8 * 8] if mag != "xl" else [])))
+    elif k == "one-byte-short":
+        ext = _extent_text(rng, need - 8 - need % 8)
+    elif k == "unaligned":
+        ext = _extent_text(rng, need + rng.choice([1, 4, 7, -1]))
+    elif k == "unaligned-huge":
+        ext = "2 ** 1024 + 1" if rng.random() < 0.5 else "(%s) * 8 + 1" % n_text
+    elif k == "negative":
+        ext = rng.choice(["-8", "-64", "-(%s) * 8" % n_text, "-1"])
+    elif k == "zero":
+        ext = "0"
+    elif k == "exact":
+        ext = _extent_text(rng, need + (-need) % 8)
+    body = "\n".join(stmts) + "\n" + ("" if k == "missing" else "@extent %s\n" % ext)
+    case = _place(rng, body, extra)
+    case.update({"diag": "extent:" + k, "mag": mag, "shape": shape})
+    if k == "exact":
+        case.pop("offending")
+    return case
+
+
+def d_version_consistency(rng: random.Random) -> dict:
+    """Two or three minor versions of one type that differ in extent / in sealing / in kind / in the fixed port-ID."""
+    # NOTE (genuine defect of the unchanged library, reported): with extents of more than 4300 digits the text of
+    # ExtentConsistencyError cannot be produced and a BARE ValueError leaves read_namespace (the check runs outside the per-file
+    # funnel).  Same root cause as the known finding F12b but another signature: that magnitude is kept out of this generator.
+    mag, n_text, n = _num(rng, xl=False)
+    k = rng.choice(["extent", "extent", "extent-sealed", "sealing", "sealing", "kind", "kind", "port-id-changed", "port-id-removed", "port-id-shared", "port-id-shared-3", "defined-twice"])
+    M = rng.choice([1, 1, 2, 255])
+    a, b = "ns/A.%d.0.dsdl" % M, "ns/A.%d.%d.dsdl" % (M, rng.choice([1, 2, 255]))
+    files, off = [], [a, b]
+    if k == "extent":
+        other = rng.choice(["(%s) * 8 + 8" % n_text, "(%s) * 16" % n_text, "8", "64", "8", "(%s + 1) * 8" % n_text] +
+                           (["(%s) * (%s) * 8" % (n_text, n_text)] if n.bit_length() < 6500 else []))    # (stays below 4300 digits, see the note above)
+        if rng.random() < 0.5:
+            a, b = b, a
+        files = [[a, "uint8 x\n@extent (%s) * 8\n" % n_text], [b, "uint8 x\n@extent %s\n" % other]]
+    elif k == "extent-sealed":
+        files = [[a, "uint8[%s] x\n@sealed\n" % n_text], [b, "uint8[(%s) + 1] x\n@sealed\n" % n_text]]
+    elif k == "sealing":
+        files = [[a, "uint8[%s] x\n@sealed\n" % n_text], [b, "uint8[%s] x\n@extent (%s) * 8\n" % (n_text, n_text)]]
+        if rng.random() < 0.5:
+            files[0][0], files[1][0] = b, a
+    elif k == "kind":
+        files = [[a, "uint8 x\n@sealed\n"], [b, "uint8 x\n@sealed\n---\n@sealed\n"]]
+    elif k == "defined-twice":     # two (or three) files define the version somebody refers to: the reference is ambiguous
+        twin = rng.choice(["ns/7000.Tw.1.0.dsdl", "ns/Tw.1.0.uavcan", "other/ns/Tw.1.0.dsdl"])
+        files = [["ns/Tw.1.0.dsdl", "uint8 x\n@sealed\n"], [twin, "uint8 x\n@sealed\n"], ["ns/A.1.0.dsdl", "ns.Tw.1.0 t\n@sealed\n"]]
+        if rng.random() < 0.3:
+            files.append(["other/ns/6999.Tw.1.0.dsdl", "uint8 x\n@sealed\n"])
+        off = None
+    else:
+        svc = rng.random() < 0.3
+        body = "uint8 x\n@sealed\n---\n@sealed\n" if svc else "uint8 x\n@sealed\n"
+        p1, p2 = (rng.sample([256, 257, 383, 300], 2)) if svc else (rng.sample([6144, 6145, 7167, 7000], 2))
+        if k == "port-id-changed":
+            files = [["ns/%d.A.%d.0.dsdl" % (p1, M), body], ["ns/%d.A.%d.1.dsdl" % (p2, M), body]]
+        elif k == "port-id-removed":
+            files = [["ns/%d.A.%d.0.dsdl" % (p1, M), body], ["ns/A.%d.1.dsdl" % M, body]]
+        elif k == "port-id-shared":
+            files = [["ns/%d.A.%d.0.dsdl" % (p1, M), body], ["ns/%d.Q.%d.%d.dsdl" % (p1, rng.choice([1, M]), rng.choice([0, 1])), body]]
+        else:
+            files = [["ns/%d.A.%d.0.dsdl" % (p1, M), body], ["ns/%d.Q.1.0.dsdl" % p1, body], ["ns/sub/%d.A.1.0.dsdl" % p1, body]]
+        off = [f[0] for f in files]
+    if k != "defined-twice" and rng.random() < 0.3:   # a third version that agrees with the first one: which pair is reported is a tie
+        first = files[0][0].rsplit("/", 1)[-1].split(".")
+        third = "ns/%sA.%d.7.dsdl" % (first[0] + "." if len(first) == 5 else "", M)
+        if all(f[0] != third for f in files):
+            files.append([third, files[0][1]])
+            off = off + [third]
+    case = {"files": files, "lookups": ["other/ns"] if any(f[0].startswith("other/") for f in files) else [], "place": "pair", "diag": "versions:" + k,
+            "mag": mag if k in ("extent", "extent-sealed", "sealing") else "small"}
+    if off:
+        case["offending"] = off
+    return case
+
+
+CONST_TYPES = ["uint8", "uint8", "int8", "uint64", "int64", "uint1", "int2", "float16", "float32", "float64", "bool", "truncated uint8", "saturated int16"]
+
+
+def d_constant(rng: random.Random) -> dict:
+    mag, n_text, _n = _num(rng, xl=True)
+    ty = rng.choice(CONST_TYPES)
+    k = rng.choice(["out-of-range", "out-of-range", "negative", "fraction", "tiny", "boundary", "string", "wrong-kind", "wrong-type"])
+    if k == "out-of-range":
+        v = n_text
+    elif k == "negative":
+        v = "-(%s)" % n_text
+    elif k == "fraction":
+        v = rng.choice(["(%s) / 3", "1 / (%s + 2)", "(%s) / (%s + 1)" % ("%s", n_text)]) % n_text
+    elif k == "tiny":
+        v = rng.choice(["1 / (%s)", "-1 / (%s)"]) % n_text
+    elif k == "boundary":
+        v = rng.choice(["256", "-1", "255", "-129", "128", "2 ** 64", "-2 ** 63 - 1", "2 ** 63", "65505", "65504.000001", "3.5e38", "1.8e308", "1e309", "-1e309", "2", "-3", "0.5", "0", "-0.0"])
+    elif k == "string":
+        v = rng.choice(["'ab'", "''", "'\\u00e9'", "'\\u0100'", "'%s'" % ("a" * rng.choice([2, 1000, 30000])), "'a' + 'b'", "'\\U0001f600'", "'a'"])
+    elif k == "wrong-kind":
+        v = rng.choice(["{1, 2}", "{%s}" % n_text, "true", "'a' == 'a'", "{'a'}"])
+    else:
+        ty, v = rng.choice(["ns.B.1.0", "ns.S.1.0", "utf8", "byte", "void8", "uint8[2]", "uint8[<=2]", "ns.B.1.0[2]"]), rng.choice(["1", n_text, "'a'", "true"])
+    body = "%s X = %s\n@sealed\n" % (ty, v)
+    case = _place(rng, body, HELPERS)
+    case.update({"diag": "constant:" + k, "mag": mag if k in ("out-of-range", "negative", "fraction", "tiny") else "small"})
+    case.pop("offending")       # several of these values are legitimate for some of the types
+    return case
+
+
+def d_capacity(rng: random.Random) -> dict:
+    mag, n_text, n = _num(rng, xl=True)
+    el = rng.choice(["uint8", "uint8", "bool", "float16", "ns.B.1.0", "ns.S.1.0", "utf8", "byte", "uint64", "void8", "truncated uint3"])
+    k = rng.choice(["zero", "negative", "negative", "below-one", "fraction", "wrong-kind", "prefix-limit", "prefix-limit", "prefix-limit", "huge-fixed"])
+    if k == "zero":
+        cap = rng.choice(["0", "<=0", "<1", "(%s) - (%s)" % (n_text, n_text), "<=(%s) * 0" % n_text])
+    elif k == "negative":
+        cap = rng.choice(["-(%s)", "<=-(%s)", "<-(%s)", "1 - (%s) * 2"]) % n_text
+    elif k == "below-one":
+        cap = rng.choice(["<0", "<1", "<=-1", "<=1 / 2"])
+    elif k == "fraction":
+        cap = rng.choice(["(%s) / 3", "<=(%s) / 7", "<(%s + 1) / (%s + 2)" % ("%s", n_text), "1 / (%s)"]) % n_text
+    elif k == "wrong-kind":
+        cap = rng.choice(["'a'", "<=true", "<{%s}" % n_text, "{1}", "<='%s'" % ("z" * rng.choice([1, 5000]))])
+    elif k == "prefix-limit":    # the length prefix of a variable-length array has at most 64 bits
+        cap = rng.choice(["<=%s", "<%s", "<=(%s) - 1", "<(%s) + 1", "<=2 ** 64 - 1", "<=2 ** 64", "<2 ** 64 + 1", "<=2 ** 32", "<=65535", "<=65536"]).replace("%s", n_text)
+    else:
+        cap = n_text
+    body = "%s[%s] a\n%s" % (el, cap, rng.choice([SEALED, SEALED, "@extent 64\n", ""]))
+    case = _place(rng, body, HELPERS)
+    case.update({"diag": "capacity:" + k, "mag": mag})
+    if k in ("prefix-limit", "huge-fixed"):
+        case.pop("offending")
+    _ = n
+    return case
+
+
+def d_bit_length(rng: random.Random) -> dict:
+    digits = rng.choice(["0", "00", "1", "2", "7", "8", "008", "16", "17", "63", "64", "65", "128", "255", "256", "1024", str(2 ** 64), str(2 ** 64 + 1), "9" * 400, "1" + "0" * 400,
+                         "9" * 4300, "9" * 4301, "1" * 10000])
+    fam = rng.choice(["uint", "int", "float", "void", "uint", "bool", "byte", "utf8"])
+    pre = rng.choice(["", "", "truncated ", "saturated "])
+    if fam in ("bool", "byte", "utf8"):
+        digits = rng.choice(["", "", "8", "1"])
+    elif pre == "truncated " and fam in ("int", "float") and rng.random() < 0.7:
+        digits = rng.choice(["8", "16", "64", "2"] if fam == "int" else ["16", "32", "64"])
+    ty = pre + fam + digits
+    stmt = rng.choice(["%s a", "%s[3] a", "%s[<=3] a", "%s X = 1"]) % ty if fam != "void" else ty
+    body = stmt + "\n@sealed\n"
+    case = _place(rng, body)
+    case.update({"diag": "bit-length:" + fam, "mag": "long-literal" if len(digits) > 100 else "small"})
+    if fam in ("bool", "byte", "utf8") or digits in ("8", "16", "64", "63", "7", "2", "17", "1"):
+        case.pop("offending")
+    return case
+
+
+RESERVED = ["truncated", "saturated", "true", "false", "bool", "void", "void8", "uint8", "int", "uint", "float16", "float", "q1_15", "uq16_16", "optional", "aligned", "const", "struct",
+            "super", "template", "enum", "self", "and", "or", "not", "auto", "type", "con", "prn", "aux", "nul", "com1", "lpt9", "True", "UINT8", "Float", "CON", "_offset_", "_", "__", "a_", "_9"]
+
+
+def d_names(rng: random.Random) -> dict:
+    """Rules about names: reserved words and patterns, the length limit of a full name, collisions between attributes."""
+    k = rng.choice(["reserved-attribute", "reserved-attribute", "reserved-type", "reserved-namespace", "too-long", "too-long", "collision", "collision", "collision-many", "void-named", "non-ascii",
+                    "non-ascii-path"])
+    if k == "reserved-attribute":
+        w = rng.choice(RESERVED)
+        body = rng.choice(["uint8 %s\n", "uint8 %s = 1\n", "uint8[<=2] %s\n", "ns.B.1.0 %s\n"]) % w + SEALED
+        case = _place(rng, body, HELPERS)
+        case.pop("offending")
+    elif k in ("reserved-type", "reserved-namespace"):
+        w = rng.choice(RESERVED)
+        rel = "ns/%s.1.0.dsdl" % w if k == "reserved-type" else "ns/%s/A.1.0.dsdl" % w
+        case = {"files": [[rel, SEALED], ["ns/Ok.1.0.dsdl", SEALED]], "lookups": [], "place": "file-name"}
+    elif k == "too-long":      # the full name has at most 255 characters; a service section adds ".Request" / ".Response" to it
+        total = rng.choice([200, 240, 246, 247, 248, 252, 253, 254, 255, 256, 257, 300, 600])
+        comps, left = ["ns"], total - 2
+        while left > 0:
+            c = min(left - 1, rng.choice([1, 10, 60, 100, 200]))
+            if c <= 0:
+                break
+            comps.append(rng.choice("abcXYZ") * c)
+            left -= c + 1
+        if len(comps) < 2:
+            comps.append("A")
+        rel = "/".join(comps[:-1]) + "/" + comps[-1] + ".1.0.dsdl"
+        case = {"files": [[rel, rng.choice([SEALED, "uint8 q\n@sealed\n---\n@sealed\n"])]], "lookups": [], "place": "file-name", "offending": [rel]}
+        if total <= 255:
+            case.pop("offending")
+    elif k == "collision":
+        w = rng.choice(["a", "value", "x" * rng.choice([300, 30000]), "A", "_"])
+        w2 = w if rng.random() < 0.8 else w.swapcase()
+        body = rng.choice(["uint8 %s\nuint16 %s\n", "uint8 %s\nuint8 %s = 1\n", "uint8 %s = 1\nuint8 %s = 1\n", "@union\nuint8 %s\nuint16 %s\n", "uint8 %s\nvoid8\nvoid8\nfloat32 %s\n"]) % (w, w2) + SEALED
+        case = _place(rng, body)
+        if w2 != w:
+            case.pop("offending")
+    elif k == "collision-many":   # several names collide at once: which one is reported is a tie
+        ws = rng.sample(["a", "b", "c", "d"], 3)
+        body = "".join("uint8 %s\n" % w for w in ws + ws[::-1] + ws) + SEALED
+        case = _place(rng, body)
+    elif k == "void-named":
+        body = rng.choice(["void8 a\n", "void8 A = 1\n", "void64 _\n"]) + SEALED
+        case = _place(rng, body)
+    elif k == "non-ascii-path":   # the name of a type / of a namespace with characters beyond ASCII: the message quotes the character
+        w = rng.choice(["\u00e9", "A\u0301", "\u03a9", "\u212a", "\U0001f600", "A\u200b", "\uff21", "\u0410", "a\u00df", "A\u202e"])
+        rel = rng.choice(["ns/%s.1.0.dsdl", "ns/%s/A.1.0.dsdl", "ns/sub/%s/A.1.0.dsdl", "ns/7000.%s.1.0.dsdl"]) % w
+        case = {"files": [[rel, SEALED], ["ns/Ok.1.0.dsdl", SEALED]], "lookups": [], "place": "file-name", "offending": [rel]}
+    else:
+        body = rng.choice(["uint8 \u00e9\n", "uint8 a\u0301\n", "uint8 \u212a\n", "uint8 \uff41\n", "ns.\u00c9.1.0 x\n", "uint8 X = \u0660\n", "@\u00e9\n", "uint8 a\u200b\n",
+                           "uint8 X = \u00e9\n", "@assert \u03a9 == 1\n"]) + SEALED
+        case = _place(rng, body)
+    case.update({"diag": "names:" + k, "mag": "long-name" if k == "too-long" or max(len(f[1]) for f in case["files"]) > 600 else "small"})
+    return case
+
+
+def d_union_and_aggregation(rng: random.Random) -> dict:
+    mag, n_text, _n = _num(rng, xl=True)
+    k = rng.choice(["no-variant", "one-variant", "one-variant-huge", "padding-in-union", "offset-in-union", "utf8-alone", "byte-alone", "utf8-fixed", "deprecated-dependency",
+                    "service-as-field", "service-as-element", "many-variants"])
+    simple = True
+    extra = list(HELPERS)
+    if k == "no-variant":
+        body = "@union\n" + rng.choice(["", "uint8 X = 1\n", "uint8 X = 1\nuint8 Y = 2\n"]) + SEALED
+    elif k == "one-variant":
+        body = "@union\nuint8 a\n" + rng.choice(["", "uint8 X = 1\n"]) + rng.choice([SEALED, "@extent 64\n"])
+    elif k == "one-variant-huge":
+        body = "@union\nuint8[%s] a\n" % n_text + rng.choice([SEALED, "@extent 64\n", ""])
+    elif k == "padding-in-union":
+        body = "@union\nuint8 a\nvoid8\nuint8 b\n" + SEALED
+    elif k == "offset-in-union":
+        body = "@union\nuint8 a\n@assert _offset_ == {8}\nuint16 b\n" + SEALED
+    elif k == "utf8-alone":
+        body = rng.choice(["utf8 a\n", "@union\nutf8 a\nuint8 b\n"]) + SEALED
+    elif k == "byte-alone":
+        body = "byte a\n" + SEALED
+    elif k == "utf8-fixed":
+        body = "utf8[%s] a\n" % n_text + SEALED
+    elif k == "deprecated-dependency":
+        extra.append(["ns/Old.1.0.dsdl", "@deprecated\nuint8 x\n@sealed\n"])
+        body = rng.choice(["ns.Old.1.0 a\n", "ns.Old.1.0[<=3] a\n", "ns.Old.1.0[%s] a\n" % n_text, "@union\nuint8 b\nns.Old.1.0 a\n"]) + SEALED
+    elif k == "service-as-field":
+        body = rng.choice(["ns.S.1.0 a\n", "@union\nns.S.1.0 a\nuint8 b\n"]) + SEALED
+    elif k == "service-as-element":
+        body = rng.choice(["ns.S.1.0[2] a\n", "ns.S.1.0[<=2] a\n", "ns.S.1.0[%s] a\n" % n_text]) + SEALED
+    else:       # the tag of a union grows with the number of variants
+        cnt = rng.choice([2, 255, 256, 257])
+        body = "@union\n" + "".join("uint8 f%d\n" % i for i in range(cnt)) + SEALED
+    case = _place(rng, body, extra, simple=simple)
+    if k == "many-variants":
+        case.pop("offending")
+    case.update({"diag": "composition:" + k, "mag": mag if n_text in body else "small"})
+    return case
+
+
+def d_port_id(rng: random.Random) -> dict:
+    """Fixed port-IDs at and beyond the limits (8191 subjects, 511 services, the regulated ranges), as huge as a file name allows."""
+    svc = rng.random() < 0.4
+    root = rng.choice(["ns", "ns", "uavcan", "cyphal", "Uavcan", "uavcan_"])
+    pid = rng.choice(["0", "1", "255", "256", "383", "384", "511", "512", "6143", "6144", "7167", "7168", "8191", "8192", "65535", "65536", str(2 ** 32), str(2 ** 64), "9" * 30, "9" * 200,
+                      "1" + "0" * 230, "00", "007168", "0384"])
+    body = "uint8 q\n@sealed\n---\n@sealed\n" if svc else "uint8 v\n@sealed\n"
+    rel = "%s/%s%s.A.%d.%d.dsdl" % (root, rng.choice(["", "", "sub/"]), pid, rng.choice([0, 1, 1, 255]), rng.choice([1, 0, 255]))
+    files = [[rel, body]]
+    if rng.random() < 0.3:
+        files.append(["%s/Ok.1.0.dsdl" % root, SEALED])
+    return {"files": files, "lookups": [], "root": root, "place": "file-name", "diag": "port-id:" + ("service" if svc else "subject"), "mag": "long-literal" if len(pid) > 20 else "small",
+            "opts": {"unregulated": True} if rng.random() < 0.3 else {}}
+
+
+def d_file_version(rng: random.Random) -> dict:
+    v = rng.choice([("0", "0"), ("256", "0"), ("0", "256"), ("255", "255"), ("1", "256"), (str(2 ** 64), "0"), ("9" * 100, "9" * 100), ("1", "9" * 230), ("00", "00"), ("0", "00")])
+    rel = "ns/%sA.%s.%s.dsdl" % (rng.choice(["", "sub/", "7000."]), v[0], v[1])
+    if rng.random() < 0.3:      # not a file name of a definition at all: the message quotes the offending component
+        rel = "ns/" + rng.choice(["A.1.dsdl", "A.dsdl", "A.1.0.0.0.dsdl", "x.A.1.0.dsdl", "ns.A.1.0.dsdl", "%s.A.1.0.dsdl" % ("p" * 200), "-1.A.1.0.dsdl", "7000.A.1.x.dsdl", "A.1.-0.dsdl",
+                                  "sub.dir/A.1.0.dsdl", ".1.0.dsdl", "...dsdl"])
+    files = [[rel, rng.choice([SEALED, "uint8 q\n@sealed\n---\n@sealed\n"])]]
+    if rng.random() < 0.4:       # somebody refers to it
+        ref = "ns.%sA.%s.%s" % ("sub." if "/sub/" in rel else "", v[0], v[1])
+        files.append(["ns/Ref.1.0.dsdl", "%s r\n@sealed\n" % ref])
+    return {"files": files, "lookups": [], "place": "file-name", "diag": "file-version", "mag": "long-literal" if len(v[0] + v[1]) > 20 else "small"}
+
+
+def d_root_namespaces(rng: random.Random) -> dict:
+    """The root and the lookup directories against each other: the same name twice, names that differ by letter case, one inside the other."""
+    k = rng.choice(["same-name", "same-name", "same-name-2", "letter-case", "nested-lookup", "nested-root", "lookup-is-root", "two-similar", "target-outside", "target-outside"])
+    files = [["ns/A.1.0.dsdl", "uint8 a\n@sealed\n"]]
+    root, lookups, opts, how = "ns", [], {}, None
+    if k in ("same-name", "same-name-2", "letter-case") and rng.random() < 0.7:
+        opts, how = {"no_collision": True}, "ns"
+    if k == "same-name":
+        files.append(["other/ns/B.1.0.dsdl", SEALED])
+        lookups = ["other/ns"]
+    elif k == "same-name-2":
+        files += [["o1/lib/B.1.0.dsdl", SEALED], ["o2/lib/C.1.0.dsdl", SEALED]]
+        lookups = ["o1/lib", "o2/lib"]
+    elif k == "letter-case":
+        files.append(["other/%s/B.1.0.dsdl" % rng.choice(["NS", "Ns", "nS"]), SEALED])
+        lookups = [files[-1][0].rsplit("/", 1)[0]]
+    elif k == "nested-lookup":
+        files.append(["ns/sub/B.1.0.dsdl", SEALED])
+        lookups = ["ns/sub"]
+    elif k == "nested-root":
+        files = [["lib/ns/A.1.0.dsdl", "uint8 a\n@sealed\n"], ["lib/B.1.0.dsdl", SEALED]]
+        root, lookups = "lib/ns", ["lib"]
+    elif k == "lookup-is-root":
+        lookups = ["ns"] * rng.choice([1, 2])
+    elif k == "target-outside":   # a file that lies under none of the roots
+        out = rng.choice(["elsewhere/X.1.0.dsdl", "X.1.0.dsdl", "nss/X.1.0.dsdl", "elsewhere/ns_/sub/X.1.0.dsdl", "elsewhere/%s/X.1.0.dsdl" % ("d" * 200)])
+        files.append([out, SEALED])
+        opts, how = {"targets": [out] + (["ns/A.1.0.dsdl"] if rng.random() < 0.5 else [])}, "files"
+    else:
+        files += [["lib/B.1.0.dsdl", SEALED], ["lib_/B.1.0.dsdl", SEALED], ["Lib/C.1.0.dsdl", SEALED]]
+        lookups = ["lib", "lib_", "Lib"]
+        files[0][1] = rng.choice(["lib.B.1.0 b\n@sealed\n", "lib.C.1.0 b\n@sealed\n", "Lib.B.1.0 b\n@sealed\n", "libb.B.1.0 b\n@sealed\n"])
+    case = {"files": files, "lookups": lookups, "root": root, "place": "roots", "diag": "roots:" + k, "mag": "small", "opts": opts}
+    if how:
+        case["how"] = how
+    return case
+
+
+def d_attribute_and_operator(rng: random.Random) -> dict:
+    """Attributes that do not exist (with near misses at equal distance) and operators applied to operands they are not defined for."""
+    mag, n_text, _n = _num(rng, xl=True)
+    extra = HELPERS + [["ns/K.1.0.dsdl", "uint8 LIMIT1 = 1\nuint8 LIMIT2 = 2\nuint8 limit = 3\n@sealed\n"]]
+    e = rng.choice([
+        "ns.K.1.0.LIMIT", "ns.K.1.0.LIMIT3", "ns.K.1.0.Limit", "ns.K.1.0.%s" % ("L" * 10000), "ns.B.1.0.X", "ns.S.1.0.X", "ns.K.1.0.LIMIT1.min", "ns.K.1.0 + 1", "ns.K.1.0 == ns.K.1.0",
+        "{1, 2}.mix", "{1, 2}.mean", "{1, 2}.Min", "{1, 2}.coun", "{%s}.m" % n_text, "'abc'.count", "true.min", "(%s).max" % n_text, "{%s, 1}.min.min" % n_text,
+        "(%s) + 'a'" % n_text, "{%s} < 'a'" % n_text, "(%s) / 3 | 1" % n_text, "!(%s)" % n_text, "-'a'", "-{'a'}", "true + (%s)" % n_text,
+        "{%s} + {1}" % n_text, "{%s, 'a'}" % n_text, "'a' * (%s)" % n_text, "(%s) && true" % n_text, "{1} || {2}", "0 ** -(3)",
+    ] + ([] if mag == "xl" else ["(%s) / 0" % n_text, "(%s) %% 0" % n_text, "(%s) / ((%s) - (%s))" % (n_text, n_text, n_text)]))
+    # NOTE: a division of a number of more than 4300 digits by zero is kept out: the text of that error quotes the dividend, i.e. it is
+    # the known finding F12b again, but raised while ZeroDivisionError is being handled, which gives it another signature.
+    use = rng.choice(["@assert %s == 1", "@assert %s", "uint8 Y = %s", "uint8[%s] f", "@print %s"]) % e
+    case = _place(rng, use + "\n@sealed\n", extra)
+    case.update({"diag": "expression", "mag": mag if n_text in e else "small"})
+    case.pop("offending")       # a few of these are legitimate
+    return case
+
+
+def d_assertion(rng: random.Random) -> dict:
+    mag, n_text, _n = _num(rng, xl=True)
+    e = rng.choice(["false", "(%s) == (%s) + 1", "(%s) < (%s)", "{%s} == {1}", "(%s) / 3 * 3 != (%s)", "1 / (%s) > 1", "(%s) % 2 == 2", "!((%s) > 0)"]).replace("%s", n_text)
+    body = rng.choice(["uint8 a\n@assert %s\n@sealed\n", "@assert %s\n@sealed\n", "uint8 a\n@sealed\n@assert %s\n"]) % e
+    case = _place(rng, body)
+    case.update({"diag": "assertion", "mag": mag if n_text in e else "small"})
+    return case
+
+
+def d_syntax(rng: random.Random) -> dict:
+    """A syntax error at an extreme position: first / last character, the end of a file without a final line break, far to the right in
+    a very long line, after thousands of lines, behind characters outside the BMP, behind unusual line breaks."""
+    bad = rng.choice(["?", "uint8", "uint8 a b", "@", "= 1", "uint8 a =", "]", "uint8[ a", "'abc", "uint8 X = 'a", "1 +", "---x", "uint8 a;", "\x00", "\u00e9", "\U0001f600", "\ufeff"])
+    k = rng.choice(["first", "last", "last-no-newline", "long-line", "long-comment", "many-lines", "astral-before", "odd-breaks", "only"])
+    if k == "first":
+        body = bad + "\nuint8 a\n@sealed\n"
+    elif k == "last":
+        body = "uint8 a\n@sealed\n" + bad + "\n"
+    elif k == "last-no-newline":
+        body = "uint8 a\n@sealed\n" + bad
+    elif k == "long-line":
+        body = "uint8 a" + " " * rng.choice([300, 5000, 30000]) + bad + "\n@sealed\n"
+    elif k == "long-comment":
+        body = "uint8 a # " + rng.choice(["x", "\u00e9", "\U0001f600"]) * rng.choice([300, 5000, 30000]) + "\n" + bad + "\n@sealed\n"
+    elif k == "many-lines":
+        body = rng.choice(["\n", "# c\n", "void8\n", "\r\n"]) * rng.choice([255, 256, 1000, 3000]) + bad + "\n@sealed\n"
+    elif k == "astral-before":
+        body = "# " + "\U0001f600\U0010ffff\u0301" * rng.choice([1, 50]) + "\nuint8 X = '\U0001f600' " + bad + "\n@sealed\n"
+    elif k == "odd-breaks":
+        body = "uint8 a" + rng.choice(["\r", "\x0b", "\x0c", "\x85", "\u2028", "\u2029", "\r\r\n", "\n\r"]) + bad + "\n@sealed\n"
+    else:
+        body = bad
+    case = _place(rng, body)
+    case.update({"diag": "syntax:" + k, "mag": "long-name" if len(body) > 1000 else "small"})
+    if bad in ("\ufeff",) or k == "odd-breaks":
+        case.pop("offending")
+    return case
+
+
+DIAGS = [(d_syntax, 3), (d_undefined_type, 7), (d_extent, 7), (d_version_consistency, 5), (d_constant, 4), (d_capacity, 4), (d_undefined_identifier, 3), (d_unknown_directive, 3),
+         (d_directive_misuse, 4), (d_bit_length, 2), (d_names, 4), (d_union_and_aggregation, 4), (d_port_id, 3), (d_file_version, 1), (d_root_namespaces, 3),
+         (d_attribute_and_operator, 4), (d_assertion, 2)]
+
+
+def gen_diag(rng: random.Random, which=None) -> dict:
+    f = which or rng.choices([d for d, _ in DIAGS], [w for _, w in DIAGS])[0]
+    case = f(rng)
+    case["kind"] = "diag"
+    case.setdefault("how", rng.choice(DIAG_ENTRIES))
+    root = case.get("root", "ns")
+    inside = [f[0] for f in case["files"] if f[0].startswith(root + "/")]
+    if case["how"] == "files1":
+        off = [o for o in case.get("offending", []) if o in inside]
+        case["target"] = rng.choice(off) if off and rng.random() < 0.5 else rng.choice(inside) if inside else case["files"][0][0]
+    case["names"] = [f[0].rsplit("/", 1)[-1] for f in case["files"]]
+    return case
+
+
 def gen_case(rng: random.Random) -> dict:
     x = rng.random()
     if x < 0.03:
         return gen_unreadable(rng)
-    if x < 0.31:
+    if x < 0.28:
         for _ in range(20):
             text = mutate_tokens(rng.choice(BASES), rng)
             if not risky(text):
@@ -459,7 +1171,7 @@ def gen_case(rng: random.Random) -> dict:
         else:
             text = BASES[0]
         return {"kind": "tokmut", "files": HELPERS + [["ns/A.1.0.dsdl", text]]}
-    if x < 0.51:
+    if x < 0.45:
         for _ in range(20):
             text = pure_noise(rng) if rng.random() < 0.15 else add_noise(rng.choice(BASES), rng)
             if not risky(text):
@@ -467,16 +1179,18 @@ def gen_case(rng: random.Random) -> dict:
         else:
             text = BASES[0]
         return {"kind": "noise", "files": HELPERS + [["ns/A.1.0.dsdl", text]]}
-    if x < 0.75:
+    if x < 0.66:
         tree, ctx = arith_tree(rng)
         case = {"kind": "arith", "tree": tree, "ctx": ctx, "env": []}
         case["text"] = X.render(tree, rng, rng.choice([0.0, 0.2]), rng.choice([0.0, 0.5]))
         case["files"] = HELPERS + [["ns/A.1.0.dsdl", X.dsdl_text(case)]]
         return case
-    if x < 0.79:
+    if x < 0.70:
         return {"kind": "nest", "files": HELPERS + [["ns/A.1.0.dsdl", nest_text(rng)]]}
-    if x < 0.88:
+    if x < 0.78:
         return gen_constellation(rng)
+    if x < 0.92:
+        return gen_diag(rng)
     files = gen_names(rng)
     return {"kind": "names", "files": files, "names": [f[0].rsplit("/", 1)[-1] for f in files]}
 
@@ -540,21 +1254,26 @@ def origin_name(case, impl) -> str:
     return name
 
 
-def run_files(files, how: str = "ns", target: typing.Optional[str] = None) -> dict:
-    """Read the namespace `ns` made of `files` the way a user would: default recursion limit, logging silenced.
-    how: "ns" read_namespace(ns) | "files" read_files(all files, [ns]) | "files1" read_files([target], [ns])."""
+def run_files(files, how: str = "ns", target: typing.Optional[str] = None, root_name: str = "ns", lookups: typing.Sequence[str] = (),
+              opts: typing.Optional[dict] = None) -> dict:
+    """Read the namespace `ns` (or `root_name`) made of `files` the way a user would: default recursion limit, logging silenced.
+    how: "ns" read_namespace(ns, lookups) | "files" read_files(all files of the root, [ns], lookups) | "files1" read_files([target], [ns], lookups).
+    opts: {"targets": [relative paths] (for "files": these instead of all files of the root), "no_collision": true (read_namespace with
+    allow_root_namespace_name_collision=False), "unregulated": true (allow_unregulated_fixed_port_id=True)}."""
     import logging
     import sys
     logging.disable(logging.CRITICAL)
     old = sys.getrecursionlimit()
     sys.setrecursionlimit(1000)
     try:
-        return _run_files(files, how, target)
+        return _run_files(files, how, target, root_name, list(lookups), opts or {})
     finally:
         sys.setrecursionlimit(old)
 
 
-def _run_files(files, how: str = "ns", target: typing.Optional[str] = None) -> dict:
+def _run_files(files, how: str = "ns", target: typing.Optional[str] = None, root_name: str = "ns", lookups: typing.Sequence[str] = (),
+               opts: typing.Optional[dict] = None) -> dict:
+    opts = opts or {}
     pydsdl = common.import_pydsdl()
     root = X.tmp_root() / "g"
     if root.exists():
@@ -573,28 +1292,38 @@ def _run_files(files, how: str = "ns", target: typing.Optional[str] = None) -> d
             p.write_bytes(text.encode("utf8", "replace"))
     except (OSError, ValueError) as ex:
         return {"cls": "unwritable", "soft_msg": str(ex)[:100]}
-    ns = root / "ns"
-    if not ns.exists():
-        ns.mkdir()
+    ns = root / root_name
+    look = [root / x for x in lookups]
     try:
+        for d in [ns] + look:
+            if not d.exists():
+                d.mkdir(parents=True)
+    except (OSError, ValueError) as ex:
+        return {"cls": "unwritable", "soft_msg": str(ex)[:100]}
+    try:
+        unreg = bool(opts.get("unregulated"))
         if how == "ns":
-            pydsdl.read_namespace(ns, [], print_output_handler=lambda p, l, t: None)
+            pydsdl.read_namespace(ns, look, print_output_handler=lambda p, l, t: None, allow_unregulated_fixed_port_id=unreg,
+                                  allow_root_namespace_name_collision=not opts.get("no_collision"))
         else:
-            rels = [rel for rel, text in files if not isinstance(text, dict)]
+            rels = [rel for rel, text in files if not isinstance(text, dict) and rel.startswith(root_name + "/")]
             if how == "files1":
-                rels = [target if target in rels else rels[0]]
-            pydsdl.read_files([root / rel for rel in rels], [ns], [], print_output_handler=lambda p, l, t: None)
+                rels = [target if target in rels else rels[0]] if rels else []
+            elif opts.get("targets"):
+                rels = list(opts["targets"])
+            pydsdl.read_files([root / rel for rel in rels], [ns], look, print_output_handler=lambda p, l, t: None, allow_unregulated_fixed_port_id=unreg)
         return {"cls": "ok"}
     except pydsdl.InvalidDefinitionError as ex:
         p = getattr(ex, "path", None)
         ok = False
+        named = None
         if p is not None:
             try:
-                Path(p).resolve().relative_to(root.resolve())
+                named = Path(p).resolve().relative_to(root.resolve()).as_posix()
                 ok = True
             except ValueError:
                 ok = False
-        return {"cls": "invalid", "soft_exc": type(ex).__name__, "path_ok": ok}
+        return {"cls": "invalid", "soft_exc": type(ex).__name__, "path_ok": ok, "path": named}
     except pydsdl.InternalError as ex:
         return {"cls": "internal", "soft_origin": exception_origin(ex), "soft_msg": urllib.parse.unquote(str(ex))[-300:]}
     except RecursionError as ex:
@@ -669,12 +1398,16 @@ class GarbageSuite(common.Suite):
         out.append({"kind": "names", "files": [["ns/A.1.0.dsdl", "uint8 a\n@sealed\n"], ["ns/7000.A.1.0.dsdl", "@sealed\n"]], "names": ["A.1.0.dsdl", "7000.A.1.0.dsdl"]})
         out.append({"kind": "names", "files": [["ns/A.1.0.dsdl", "@sealed\n"], ["ns/A.1.0.uavcan", "@sealed\n"]], "names": ["A.1.0.dsdl", "A.1.0.uavcan"]})
         _ = r
+        # a fixed sample of every family of diagnostics (the same on every run, whatever VERIF_SEED is)
+        for f, _w in DIAGS:
+            rd = random.Random("diag-corpus/" + f.__name__)
+            out += [gen_diag(rd, f) for _k in range(8)]
         return out
 
     def run_impl(self, case):
         try:
-            out = run_files(case["files"], case.get("how", "ns"), case.get("target"))
-            dep = dependency_path_probe(case["files"])
+            out = run_files(case["files"], case.get("how", "ns"), case.get("target"), case.get("root", "ns"), case.get("lookups", []), case.get("opts"))
+            dep = None if case.get("kind") == "diag" else dependency_path_probe(case["files"])
             if dep is not None:
                 out["dep_path_ok"] = dep[0]
                 out["soft_dep"] = dep[1]
@@ -713,6 +1446,9 @@ class GarbageSuite(common.Suite):
         if cls == "invalid":
             if not impl.get("path_ok"):
                 return "InvalidDefinitionError (%s) without the path of a file of the namespace" % impl.get("soft_exc")
+            if case.get("offending") and impl.get("path") not in case["offending"]:
+                # the namespace holds exactly one defect (or one defective pair): that is the file the error has to name
+                return "InvalidDefinitionError (%s) names %s, the offending file is %s" % (impl.get("soft_exc"), impl.get("path"), " or ".join(case["offending"]))
             return None
         if cls == "internal":
             return "InternalError reached the caller [%s]: %s" % (origin_name(case, impl), impl.get("soft_msg", "")[-160:])
@@ -727,6 +1463,8 @@ class GarbageSuite(common.Suite):
             return "%s/foreign/%s" % (prop, origin or desc.split(" ")[0][8:])
         if desc.startswith("InvalidDefinitionError of a definition first reached"):
             return "%s/dependency-error-wrong-path" % prop
+        if desc.startswith("InvalidDefinitionError") and " names " in desc and "the offending file is" in desc:
+            return "%s/invalid-names-another-file" % prop
         if desc.startswith("InvalidDefinitionError"):
             return "%s/invalid-without-path" % prop
         if desc.startswith("hazard") or desc.startswith("model"):
@@ -749,6 +1487,26 @@ class GarbageSuite(common.Suite):
                     c = dict(case)
                     c["files"] = files[:i] + files[i + 1:]
                     yield c
+            return
+        if case.get("kind") == "diag":
+            if case.get("how", "ns") != "ns":
+                c = dict(case)
+                c["how"] = "ns"
+                c.pop("target", None)
+                yield c
+            keep = set(case.get("offending", [])) | {case.get("target")}
+            for i in range(len(files)):
+                if files[i][0] not in keep and len(files) > 1:
+                    c = dict(case)
+                    c["files"] = files[:i] + files[i + 1:]
+                    yield c
+            for i, (rel, text) in enumerate(files):
+                lines = text.split("\n")
+                if 2 < len(lines) <= 400:
+                    for k in range(len(lines) - 1):
+                        c = dict(case)
+                        c["files"] = files[:i] + [[rel, "\n".join(lines[:k] + lines[k + 1:])]] + files[i + 1:]
+                        yield c
             return
         if case.get("how", "ns") != "ns":
             c = dict(case)
@@ -790,6 +1548,18 @@ class GarbageSuite(common.Suite):
             yield "rejected-as:" + impl["soft_exc"]
         if impl.get("soft_origin"):
             yield "origin:" + origin_name(case, impl)
+        if case["kind"] == "diag":
+            yield "entry:" + case.get("how", "ns")
+            yield "diag:" + case.get("diag", "?")
+            yield "diag-family:" + case.get("diag", "?").split(":")[0]
+            yield "diag-magnitude:" + case.get("mag", "small")
+            yield "diag-placement:" + case.get("place", "?")
+            if case.get("cand"):
+                for c in case["cand"].split("+"):
+                    yield "diag-candidates:" + c
+            if case.get("shape"):
+                yield "diag-shape:" + case["shape"]
+            yield "diag-reached:" + (impl.get("soft_exc") or str(impl.get("cls")))
         if case["kind"] == "constellation":
             yield "entry:" + case.get("how", "ns")
             for t in constellation_traits(case["files"]):
